@@ -116,15 +116,18 @@ def Lexer.spanFrom (lx : Lexer) (start : Nat) : Option Span :=
 
 /-- When does re-lexed text count as "expanded" (spans fall back to the whole source span)?
     * `onlyWhenLonger`     — as found on the pinned tree (`s.len() > entire_span.len()`), D19;
-    * `whenLengthDiffers`  — the code as it stands (lexer.rs:160 `s.len() != entire_span.len()`);
-    * `whenTextDiffers`    — the specified rule: offsets into the text are meaningful for the source
-                             only when the text *is* the source text of the span. -/
+    * `whenLengthDiffers`  — the first repair (`s.len() != entire_span.len()`), still wrong for text
+                             of equal byte length but different character layout, D23;
+    * `whenTextDiffers`    — the code as it stands (lexer.rs:163-171): offsets into the text are
+                             meaningful for the source only when the text *is* the source text of
+                             the span (`map.find_file(..).source_slice(entire_span) != s`). -/
 inductive ExpandRule where
   | onlyWhenLonger | whenLengthDiffers | whenTextDiffers
   deriving DecidableEq, Repr, Inhabited
 
-/-- Name used in DESIGN §8 for the as-found switch. -/
+/-- Names of the two as-found switches. -/
 abbrev expandedOnlyWhenLonger : ExpandRule := .onlyWhenLonger
+abbrev expandedWhenLengthDiffers : ExpandRule := .whenLengthDiffers
 
 def isExpandedBy (rule : ExpandRule) (file s : List Char) (entire : Span) : Bool :=
   match rule with
@@ -136,11 +139,16 @@ def isExpandedBy (rule : ExpandRule) (file s : List Char) (entire : Span) : Bool
 def Lexer.ofFile (file : List Char) : Lexer :=
   { buf := tokenize file 0, entire := ⟨0, byteLen file⟩, cursor := 0, isExpanded := false }
 
-/-- `Lexer::new_from_string` (lexer.rs:159): `s` is text produced at evaluation time (resolved
+/-- `Lexer::new_from_string` (lexer.rs:163): `s` is text produced at evaluation time (resolved
     interpolation of a selector, media query, @at-root query, keyframes selector, …) and `entire`
     the span of the source it came from. -/
 def Lexer.ofString (rule : ExpandRule) (file s : List Char) (entire : Span) : Lexer :=
   { buf := tokenize s 0, entire := entire, cursor := 0, isExpanded := isExpandedBy rule file s entire }
+
+/-- `Lexer::new_from_detached_string` (lexer.rs:175): text that is never the source text of the
+    span (the namespace derived from a `@use` URL); always expanded. -/
+def Lexer.ofDetached (s : List Char) (entire : Span) : Lexer :=
+  { buf := tokenize s 0, entire := entire, cursor := 0, isExpanded := true }
 
 /-- `set_cursor` (lexer.rs:90): any value is accepted. -/
 def Lexer.setCursor (lx : Lexer) (c : Nat) : Lexer := { lx with cursor := c }
